@@ -208,6 +208,7 @@ def run(ck):
     ck.rule('C17.e', 'at-most variants perform exactly one driver-path call, contain no loop and return its result')
     ck.rule('C17.f', 'plumbing counts: what is put equals what was got, bounded by the request and by the auxiliary region; counted loops subtract the moved count and return n; drains stop at the first negative result and return it')
     ck.rule('C17.h', 'kind / union-member agreement: constructors set kind and the matching driver member; every use of .octet/.chunk lies behind the matching test of kind')
+    ck.rule('C17.i', 'descriptor drivers (endpoints/posix.c): the system call gets the rest of the caller\'s chunk; an error (or end of file) is answered only when no octet was moved in this call')
     ck.rule('C17.g', 'buffer drivers delegate to byte_buffer_consume_at_most / byte_buffer_add with unchanged arguments')
     ck.not_decided += ['order / no duplication over whole driver scripts as such (induction over the position invariant)',
                        'sts_atmost_via_sink/_via_source buffer-extension paths beyond their count bounds']
@@ -245,6 +246,7 @@ def run(ck):
     rule_ext(ck, u, ub, so)
     rule_atmost(ck, u, sym.Engine(u, sizeof=so, inline={'channel_has_buffer_ext'}, other_units=[ub]))
     rule_g(ck)
+    rule_fd_drivers(ck)
     rule_trivial(ck)
     rule_h(ck, u, so, ub)
 
@@ -1048,6 +1050,81 @@ def rule_trivial(ck):
                     bad = 'does not report -ENODATA without touching the buffer'
         ck.verdict(bad is None, 'C17.g', fn, cast.where(f),
                    {'run_source_zero': 'fills exactly n octets with zero and reports n', 'run_sink_null': 'accepts n octets', 'run_source_empty': 'reports -ENODATA'}[fn] if bad is None else bad)
+
+
+def rule_fd_drivers(ck):
+    """C17.i  The library's own descriptor drivers (endpoints/posix.c) honour the driver contract the retry loops of the
+    endpoint layer rest on: a driver call that has moved k > 0 octets says so.  The loops read a negative answer as
+    "nothing moved" (-EINTR / -EAGAIN: offer the same octets again; anything else: give up, count unchanged).  A driver
+    that moves part of a chunk and then answers the error of a later system call makes sink_put_chunk send octets twice
+    (or source_get_chunk lose them).  Per path: the system call gets the driver's descriptor, buffer and count - or, in a
+    driver that loops, (buffer + K, count - K) for the same K; an error answer (-errno, or -ENODATA at end of file) is
+    given only where K, the octets moved earlier in this call, is entailed to be 0; a one-shot success answers the system
+    call's own count."""
+    rel = 'src/endpoints/posix.c'
+    try:
+        u = cast.load(rel)
+    except Exception as e:      # noqa: BLE001 - not part of this build
+        ck.notes.append('C17.i: %s is not in the compilation database (%s)' % (rel, e))
+        return
+    ck.unit(rel)
+    eng = sym.Engine(u, sizeof={})
+    drv, data, n = ('v', 'driver'), ('v', 'data'), ('v', 'n')
+    seen = 0
+    for fn, sysc in (('run_read', 'read'), ('run_write', 'write')):
+        f = u.fn(fn)
+        if f is None:
+            continue            # configured out (UFW_HAVE_POSIX_*)
+        seen += 1
+        ck.function(fn)
+        try:
+            ps = eng.paths(fn)
+        except (sym.Unsupported, sym.PathLimit) as e:
+            ck.broken('C17.i', fn, cast.where(f), 'path enumeration: %s' % e)
+            continue
+        ck.analysed['paths'] += len(ps)
+        bad = None
+        ncall = 0
+        for p in ps:
+            cs = p.calls(sysc)
+            if len(cs) > 1:
+                bad = bad or 'two %s() calls on one path' % sysc
+                continue
+            if not cs:
+                continue
+            ncall += 1
+            e = cs[0]
+            a = [strip_cast(x) for x in e.args]
+            if len(a) != 3 or a[0] != ('i', drv, C(0)) and fmt(a[0]) != '*driver':
+                bad = bad or '%s() is not called on the driver\'s descriptor (%s)' % (sysc, fmt(e.args[0]))
+                continue
+            K = L(n) - L(a[2])
+            if L(a[1]) != L(data) + K:
+                bad = bad or '%s(fd, %s, %s): buffer and count do not describe the rest of the caller\'s chunk' % (sysc, fmt(a[1]), fmt(a[2]))
+                continue
+            if p.end != 'return':
+                continue
+            r = e.result
+            neg = eng.entails(p, L(r) + 1)
+            zero = sysc == 'read' and eng.entails(p, L(r)) and eng.entails(p, -L(r))
+            rv = strip_cast(p.ret)
+            if neg or zero:
+                if L(rv) == K:
+                    pass            # the failed step is not reported: the answer is the count moved before it
+                elif not eng.entails(p, K):
+                    bad = bad or ('answers an error (%s) under {%s} although %s octets may have been moved earlier in this call: the endpoint\'s retry loop reads a negative answer as '
+                                  '"nothing moved" and offers the same octets again (duplication on a sink, loss on a source)'
+                                  % (fmt(p.ret), '; '.join(fmt(c) for c in p.cond_terms()[-3:]), K))
+            elif K.is_const() and K.c == 0 and L(rv) != L(r):
+                bad = bad or 'a successful %s() is answered with %s, not with its count' % (sysc, fmt(p.ret))
+        if ncall == 0:
+            ck.broken('C17.i', fn, cast.where(f), 'no path calls %s()' % sysc)
+        else:
+            ck.verdict(bad is None, 'C17.i', fn, cast.where(f),
+                       'every path hands %s() the rest of the caller\'s chunk; an error is answered only when nothing was moved in this call (%d calling paths)' % (sysc, ncall)
+                       if bad is None else bad)
+    if seen == 0:
+        ck.notes.append('C17.i: no descriptor driver in this configuration')
 
 
 def rule_g(ck):
